@@ -50,6 +50,8 @@ type Task struct {
 	condWhy string
 	tick    int
 	prio    int
+	// LastNow is the simulated time this task last read from the clock.
+	LastNow time.Time
 	hasPrio bool
 	Data    any
 }
@@ -450,6 +452,10 @@ func (u UnboundedLoop) Error() string { return "unbounded loop without schedulin
 
 var schedTick int
 
+// SchedTickLimit bounds loop iterations of instrumented code called directly
+// by a harness on the scheduler goroutine (between two ResetSchedTick calls).
+var SchedTickLimit = tickLimit
+
 // Tick is inserted at the top of every loop body of instrumented code.
 func Tick(where string) {
 	s := S
@@ -465,7 +471,7 @@ func Tick(where string) {
 		return
 	}
 	schedTick++
-	if schedTick > tickLimit {
+	if schedTick > SchedTickLimit {
 		schedTick = 0
 		panic(UnboundedLoop{where})
 	}
@@ -612,6 +618,9 @@ func (s *Sim) fireDue() {
 // Now replaces time.Now.
 func Now() time.Time {
 	if s := S; s != nil {
+		if t := s.cur; t != nil {
+			t.LastNow = s.now
+		}
 		return s.now
 	}
 	return time.Now()
